@@ -510,8 +510,11 @@ pub fn ref_elev(links: &[Link], route: &[usize], x: f64) -> f64 {
 
 /// documented three-branch curve resistance coefficient for a heading change `dh` over `length`
 pub fn ref_curve_coeff(h0: f64, h1: f64, length: f64, c0: f64, c1: f64, c2: f64) -> f64 {
+    // heading change = the smaller angle between the two headings (independent of the code's own expression:
+    // 350 deg -> 10 deg is a change of 20 deg, whichever way the values wrap)
     let two_pi = 2.0 * std::f64::consts::PI;
-    let dh = (-two_pi / 2.0 + (h1 - h0 + two_pi / 2.0) % two_pi).abs();
+    let d = (h1 - h0).rem_euclid(two_pi);
+    let dh = if d > std::f64::consts::PI { two_pi - d } else { d };
     let curvature = dh / length; // rad/m
     let one_degree = (std::f64::consts::PI / 180.0) / (100.0 * 0.3048);
     if curvature < one_degree {
